@@ -61,13 +61,26 @@ where
     }
 
     /// Add new constraint `c` while keeping the store normalized
+    ///
+    /// A stored constraint that subsumes the new one makes the new one redundant, and the
+    /// new constraint is not added; stored constraints that the new one subsumes are removed.
     pub fn push_and_normalize(&mut self, newc: Rc<dyn Constraint<U, E>>) {
         if let Some(tree_newc) = newc.downcast_ref::<DisequalityConstraint<U, E>>() {
+            let is_redundant = self.iter().any(|storec| {
+                match storec.downcast_ref::<DisequalityConstraint<U, E>>() {
+                    Some(tree_storec) => tree_storec.subsumes(tree_newc),
+                    None => false,
+                }
+            });
+            if is_redundant {
+                return;
+            }
+
             let mut normalized = HashSet::new();
             for storec in self.0.drain() {
                 // All non-subsumable constraints are always carried along
                 if let Some(tree_storec) = storec.downcast_ref::<DisequalityConstraint<U, E>>() {
-                    if !tree_storec.subsumes(tree_newc) && !tree_newc.subsumes(tree_storec) {
+                    if !tree_newc.subsumes(tree_storec) {
                         normalized.insert(storec);
                     }
                 } else {
